@@ -31,8 +31,12 @@ let events_since (old_n : int) (al : AllocModel.alloc) : string =
   let fresh = L.rev (take k evs) in
   " ;;" ^ S.concat "" (L.map (fun e -> " ; " ^ zs (AllocModel.aev_out e)) fresh)
 
+(* at most max_print elements are printed (the drivers apply the same cap) *)
+let max_print = 256
+let rec take n l = if n <= 0 then [] else match l with [] -> [] | x :: r -> x :: take (n - 1) r
+
 let dump_sys (s : sys) : string =
-  S.concat " " (L.mapi (fun i v -> Printf.sprintf "| V%d: %s" i (zs (dump s.heap v))) s.vecs)
+  S.concat " " (L.mapi (fun i v -> Printf.sprintf "| V%d: %s" i (zs (take (5 + max_print) (dump s.heap v)))) s.vecs)
 
 type hdr = { mutable shape : ((BinNums.coq_N * bool) * bool) list;
              mutable fails : Datatypes.nat list; mutable from : Datatypes.nat option }
